@@ -157,6 +157,16 @@ func init() {
 		i.obsTerms = append(i.obsTerms, row)
 		return nil
 	}
+	// verifDeepRender: an injective structural rendering of a concrete value
+	// (dynamic type names included, map entries sorted by rendered key, no
+	// depth limit). Used by harness stubs that stand in for a serialiser
+	// whose only relevant property is injectivity (json.Marshal feeding a
+	// digest). A symbolic leaf makes the path inconclusive, never equal.
+	harnessAPI["verifDeepRender"] = func(fr *frame, args []value) value {
+		var sb strings.Builder
+		fr.i.deepRender(&sb, args[0], 0)
+		return sb.String()
+	}
 	harnessAPI["verifYield"] = func(fr *frame, args []value) value {
 		fr.i.sched.yield("verifYield")
 		return nil
@@ -1321,4 +1331,94 @@ func (i *interpreter) findMethod(t types.Type, pkg *types.Package, name string) 
 		return nil
 	}
 	return i.prog.MethodValue(sel)
+}
+
+func (i *interpreter) deepRender(sb *strings.Builder, v value, depth int) {
+	if depth > 64 {
+		panic(pathEnd{&PathResult{Kind: "error", Msg: "verifDeepRender: value nested deeper than 64 (cyclic?)"}})
+	}
+	switch x := v.(type) {
+	case nil:
+		sb.WriteString("nil")
+	case iface:
+		if x.t == nil {
+			sb.WriteString("nil")
+			return
+		}
+		sb.WriteString("(" + x.t.String() + ")")
+		i.deepRender(sb, x.v, depth+1)
+	case bool, int, int8, int16, int32, int64, uint, uint8, uint16, uint32, uint64, uintptr, float32, float64:
+		fmt.Fprintf(sb, "%v", x)
+	case string:
+		sb.WriteString(strconv.Quote(x))
+	case sv:
+		panic(pathEnd{&PathResult{Kind: "error", Msg: "verifDeepRender: symbolic leaf (unsupported)"}})
+	case structure:
+		sb.WriteByte('{')
+		for k, e := range x {
+			if k > 0 {
+				sb.WriteByte(',')
+			}
+			i.deepRender(sb, e, depth+1)
+		}
+		sb.WriteByte('}')
+	case array:
+		sb.WriteByte('[')
+		for k, e := range x {
+			if k > 0 {
+				sb.WriteByte(',')
+			}
+			i.deepRender(sb, e, depth+1)
+		}
+		sb.WriteByte(']')
+	case []value:
+		if x == nil {
+			sb.WriteString("[]") // json renders a nil slice as null; for staleness purposes nil and empty are the same document shape only if the code says so - keep them equal here (conservative for omitempty fields)
+			return
+		}
+		sb.WriteByte('[')
+		for k, e := range x {
+			if k > 0 {
+				sb.WriteByte(',')
+			}
+			i.deepRender(sb, e, depth+1)
+		}
+		sb.WriteByte(']')
+	case tuple:
+		sb.WriteByte('<')
+		for k, e := range x {
+			if k > 0 {
+				sb.WriteByte(',')
+			}
+			i.deepRender(sb, e, depth+1)
+		}
+		sb.WriteByte('>')
+	case *value:
+		if x == nil {
+			sb.WriteString("nil")
+			return
+		}
+		sb.WriteByte('&')
+		i.deepRender(sb, *x, depth+1)
+	case *omap:
+		if x == nil {
+			sb.WriteString("map{}")
+			return
+		}
+		var ents []string
+		for _, e := range x.entries {
+			if e.deleted {
+				continue
+			}
+			var eb strings.Builder
+			i.deepRender(&eb, e.key, depth+1)
+			eb.WriteByte(':')
+			i.deepRender(&eb, e.val, depth+1)
+			ents = append(ents, eb.String())
+		}
+		sort.Strings(ents)
+		sb.WriteString("map{" + strings.Join(ents, ",") + "}")
+	default:
+		panic(pathEnd{&PathResult{Kind: "error", Msg: fmt.Sprintf("verifDeepRender: unsupported value %T", v)}})
+	}
 }
